@@ -302,6 +302,7 @@ def run(ctx: Ctx) -> None:
                 else:
                     rep.bad("C03.R8", m_.qname, desc, m_.loc(x), w + ["a relative pathlib.Path store path is accepted and made absolute against the working directory: the signature of every "
                             "function that loads it differs between two working directories"], stmt_key(x), what="the working directory enters a store path")
+    n8 += store_paths_lexical(ctx, "C03.R8")
     rep.floor("C03.R8", n8, 1)
 
     # ---- R6: no text form of a value of unknown type is hashed --------------------------------------------------------
@@ -413,6 +414,28 @@ def run(ctx: Ctx) -> None:
             else:
                 rep.ok("C03.R5", hh.qname, desc, hh.loc(br))
     rep.floor("C03.R5", n5, 1)
+
+
+def store_paths_lexical(ctx: Ctx, rule: str) -> int:
+    """a store path is made from the text the user gave: the path utilities never ask the file system (`resolve()`, `realpath`,
+    `expanduser`, `samefile`, `readlink`): what they return depends on the links and directories that exist where the process runs, and
+    `resolve()` folds '..' segments away before the store can refuse them"""
+    rep = ctx.report
+    pu = ctx.prog.classes.get("dds.structures_utils.DDSPathUtils")
+    if pu is None:
+        raise AnchorError("dds.structures_utils.DDSPathUtils not found")
+    n = 0
+    for m_ in pu.methods.values():
+        n += 1
+        hits = [x for x in m_.own_nodes() if isinstance(x, ast.Call) and isinstance(x.func, ast.Attribute) and x.func.attr in ("resolve", "realpath", "expanduser", "samefile", "readlink", "expandvars")]
+        desc = f"{m_.name} builds the store path from the given text only"
+        if hits:
+            rep.bad(rule, m_.qname, desc, m_.loc(hits[0]), [f"{m_.loc(hits[0])}: `{unparse(hits[0], 50)}` consults the file system",
+                    "Path('/q/../t') and '/t' become one store path (the local store's refusal of '..' segments never triggers), a path that goes through a local symbolic link is "
+                    "renamed to the link's target: the signature of every reader depends on the machine"], stmt_key(hits[0]), what="a store path is resolved against the local file system")
+        else:
+            rep.ok(rule, m_.qname, desc, m_.loc())
+    return n
 
 
 def global_cache_rule(ctx: Ctx, rule: str) -> None:
